@@ -43,6 +43,11 @@ CLAIMED = {
    text="Lean theorems: each validator rejects iff the documented predicate holds (some ballot without ranking / with a tied position; m outside 1..n; Alaska stage sizes; negative or increasing vector <-> not(non-negative and pairwise non-increasing); rating arguments; generator and interval-combination conditions), with exact boundaries, and a rejected request is `raised e` (no state list). Correspondence + monitors on one stream per documented precondition, violated by the smallest margin and grossly, offending ballot first/middle/last, plus the accepting boundary value.",
    note="Trusted: Lean kernel + standard axioms; Python round(x, 8) evaluated by the harness. Repaired defect F-C20 (zero budget accepted; fix: commit 07ede19).",
    ref="DESIGN.md §4 C20"),
+
+ "C09": dict(
+   text="Lean theorems about the query functions of the model (pure functions of the recorded rounds): index normalisation (exactly [-len, len) accepted, negative indices address the same rounds, otherwise IndexError) for all getters, cumulative elected/eliminated as concatenations of the per-round records (hence monotone growth), ranking = elected ++ remaining ++ eliminated. Correspondence: random query histories (6-30 calls, repetition, negative and out-of-range indices) on finished elections of every rule, each answer compared with the model; monitors: recorded rounds unchanged after every call (snapshot), repeated calls repeat, profile candidates = remaining, re-scoring reproduces recorded tallies.",
+   note="Trusted: Lean kernel + standard axioms; Python aliasing/purity is observed, not proved; get_profile is modelled by direct construction, the implementation's replay is compared with it. Repaired defect F-C09-a (fix: commit e2abdfa); open finding F-C09-b (PluralityVeto.get_profile).",
+   ref="DESIGN.md §4 C09"),
 }
 TECH = "Lean 4 kernel-checked theorems over a hand-written executable model + differential correspondence check of the model against /repo/src + independent Python monitors"
 
